@@ -663,12 +663,25 @@ func cfWhole(r *hx.Result, rng *rand.Rand, tmp string, mutations int) {
 			log.RegisterTag(t)
 		}
 	}
-	base := cfWholeBase(dir)
+	base0 := cfWholeBase(dir)
+	base := base0
+	gen := 0
 	// 1. every spelling x flat / inline form of some sub-trees: must succeed, and instantiate what was written
 	for _, style := range []string{"camel", "kebab", "snake", "capital"} {
 		for fi, form := range []string{"flat", "expr:appender.rol", "expr:logger.asy", "expr:logger.rfl", "expr:appender.con", "expr:appender.fil",
 			"expr:logger.rfa", "expr:appender.con", "expr:logger.rfa", "expr:logger.rfd"} {
 			exprFlip = fi >= 7 // the later forms write nested sub-expressions first instead of last (or the other way round)
+			// consecutive generations differ in their values: what is instantiated is what THIS configuration says
+			gen++
+			base := map[string]string{}
+			for k, v := range base0 {
+				base[k] = v
+			}
+			wantBuf, wantAge := 256, int32(24)
+			if gen%2 == 0 {
+				wantBuf, wantAge = 512, 48
+				base["bufSize"], base["appender.rol.maxAge"] = "512", "48"
+			}
 			reset()
 			h := log.GetLogger("asy")
 			hrfa, hrfd := log.GetLogger("rfa"), log.GetLogger("rfd")
@@ -699,7 +712,7 @@ func cfWhole(r *hx.Result, rng *rand.Rand, tmp string, mutations int) {
 				continue
 			}
 			// what was instantiated
-			if al, ok := log.VerifHandleLogger(h).(*log.AsyncLogger); !ok || al.BufferSize != 256 || al.BufferFullPolicy != log.BufferFullPolicyBlock ||
+			if al, ok := log.VerifHandleLogger(h).(*log.AsyncLogger); !ok || al.BufferSize != wantBuf || al.BufferFullPolicy != log.BufferFullPolicyBlock ||
 				len(al.AppenderRefs.AppenderRefs) != 2 {
 				r.Violate("instantiated-values", desc, "logger asy is %T %+v", log.VerifHandleLogger(h), log.VerifHandleLogger(h))
 			} else {
@@ -708,7 +721,7 @@ func cfWhole(r *hx.Result, rng *rand.Rand, tmp string, mutations int) {
 						r.Violate("instantiated-values", desc, "file appender instantiated with fileName %q, configured %q", fa.FileName, `f\temp\new.log`)
 					}
 					if ra, ok := ref.Appender.(*log.RollingFileAppender); ok {
-						if ra.MaxAge != 24 || ra.FileName != "r.log" || ra.Rotation.Interval != time.Hour || ref.Level.MinLevel != log.WarnLevel {
+						if ra.MaxAge != wantAge || ra.FileName != "r.log" || ra.Rotation.Interval != time.Hour || ref.Level.MinLevel != log.WarnLevel {
 							r.Violate("instantiated-values", desc, "rolling appender instantiated as %+v (ref level %v)", ra, ref.Level)
 						}
 					}
